@@ -4,7 +4,7 @@
    integer raw registers by the 65 536-point sweeps). *)
 From Coq Require Import ZArith QArith Bool List Lia PrimFloat SpecFloat FloatOps FloatAxioms.
 From Bardolph Require Import Base.PyNum Num.UnitsQ Gen.ParamGen Gen.ColorsysGen Gen.UnitsGen Gen.MachineUnitsGen
-     Num.UnitsFloat Num.Switch Num.FloatProofs Num.SweepDefs Num.SweepProofs Num.PathsProofs.
+     Num.UnitsFloat Num.Switch Num.FloatProofs Num.SweepDefs Num.SweepProofs.
 Import ListNotations.
 Close Scope Q_scope.
 Open Scope Z_scope.
